@@ -82,7 +82,8 @@ def check_exception_inputs(tier, seed):
     hdr = 'Traceback (most recent call last):'
     gots = ['ValueError: x', 'ValueError: y', 'a.b.ValueError: x', 'KeyError', 'ValueError', 'E: 3.5', 'mod.E: 3.5']
     wants = [hdr + '\n' + g for g in gots] + [hdr + '\n  File "x"\n' + gots[0], hdr + '\n...\nValueError: ...',
-             'ValueError: x', 'something else', hdr, hdr + '\n  indented only', '    ' + hdr + '\n    KeyError']
+             'ValueError: x', 'something else', hdr, hdr + '\n  indented only', '    ' + hdr + '\n    KeyError',
+             hdr + '\n    ...\nValueError...', hdr + '\nValueError.', hdr + '\nmod.KeyError:']
     rss = _runstates()
     for g, w, r in _shuffled(itertools.product(gots, wants, range(len(rss))), seed):
         yield {'exc_got': g, 'want': w, 'runstate': rss[r]}
